@@ -269,6 +269,45 @@ func panObjSpace(name string, universe int) *panSpace {
 	}}
 }
 
+// shared: two device rules with their own address-groups (all member sets
+// over 5 addresses); the target uses one group in both rules.  Whether
+// each device group is edited incrementally, replaced, or the new group
+// is transferred depends on the distance of each device group.
+func panSharedSpace() *panSpace {
+	const universe = 5
+	nsub := int64(1<<uint(universe)) - 1
+	all := []string{"a1", "a2", "a3", "a4", "a5"}
+	set := func(mask int) []string {
+		var l []string
+		for i := 0; i < universe; i++ {
+			if mask&(1<<uint(i)) != 0 {
+				l = append(l, all[i])
+			}
+		}
+		return l
+	}
+	return &panSpace{name: "shared", n: nsub * nsub * nsub * 2, gen: func(i int64) (string, core.Files) {
+		order := int(i % 2)
+		i /= 2
+		d1 := int(i%nsub) + 1
+		i /= nsub
+		d2 := int(i%nsub) + 1
+		i /= nsub
+		tm := int(i) + 1
+		r1 := panRuleT{"allow", "z1", "z2", []string{"gd1"}, []string{"a3"}, []string{"tcp 80"}, ""}
+		r2 := panRuleT{"allow", "z2", "z1", []string{"a3"}, []string{"gd2"}, []string{"tcp 80"}, ""}
+		t1, t2 := r1, r2
+		t1.src, t2.dst = []string{"gx"}, []string{"gx"}
+		dev := panVsysT{name: "vsys1", rules: []panRuleT{r1, r2}, groups: map[string][]string{"gd1": set(d1), "gd2": set(d2)}}
+		tgt := panVsysT{name: "vsys1", rules: []panRuleT{t1, t2}, groups: map[string][]string{"gx": set(tm)}}
+		if order == 1 {
+			dev.rules = []panRuleT{r2, r1}
+			tgt.rules = []panRuleT{t2, t1}
+		}
+		return panConfig(dev), core.Files{Main: panConfig(tgt)}
+	}}
+}
+
 // services and service groups
 func panSvcSpace() *panSpace {
 	type sv struct {
@@ -438,7 +477,7 @@ func (x *panx) runCase(sp *panSpace, idx int64, a string, b core.Files, tag stri
 	}
 	for i, cmd := range script {
 		if err := m.Exec(cmd); err != nil {
-			if x.exec {
+			if x.exec || x.conv {
 				x.violation(sp, idx, a, b, script, i, "exec-accept", tag+"exec:"+execSig(err)+nestedTag,
 					fmt.Sprintf("command %q: %v", cmd, err))
 			} else {
@@ -563,7 +602,7 @@ func (x *panx) runChain() {
 }
 
 func panSpaces(ctx *core.Ctx) []*panSpace {
-	l := []*panSpace{panRuleSpace("rules", 6, 2), panObjSpace("objs", 4), panSvcSpace(), panVsysSpace(), panCorpusSpace()}
+	l := []*panSpace{panRuleSpace("rules", 6, 2), panObjSpace("objs", 4), panSharedSpace(), panSvcSpace(), panVsysSpace(), panCorpusSpace()}
 	if ctx.Thorough() {
 		l = append(l, panRuleSpace("rules-x", 7, 3), panObjSpace("objs-x", 5))
 	}
